@@ -514,7 +514,7 @@ Proof.
   - (* OSubscribe *)
     destruct (sess_ctx st sid) as [s|] eqn:C; [|exact H].
     destruct (s_fab s =? 0) eqn:E0; [exact H|].
-    destruct (negb (allowed st s)); [exact H|].
+    destruct (negb (can_view st s)); [exact H|].
     destruct (Nat.leb _ _); [exact H|].
     cbn [fst]. apply Inv_build; sp; try inv_fields H.
     intros u Hu. apply in_app_iff in Hu. destruct Hu as [Hu|[<-|[]]]; [apply (inv_subs _ H); exact Hu|].
